@@ -119,9 +119,9 @@ theorem C17_wsgi (app : Wsgi.App) (locs : List Stage) (sched : List Nat) (i : Na
 
 /-! ### the frame condition against the source (regenerated inventory) -/
 
-/-- every module/class level mutable container the translator finds in the package is one of the
-    shared objects the model knows about -/
-theorem shared_inventory_known : ∀ m ∈ Gen.Shared.mutables, m ∈ knownShared := by decide
+/-- every shared object that is written anywhere (at import or configuration time) is one of the
+    objects the model knows about; containers that are only ever read do not matter -/
+theorem shared_inventory_known : ∀ w ∈ Gen.Shared.writes, w.1 ∈ knownShared := by decide
 
 /-- every syntactic write to one of them sits in a function that runs at import or configuration
     time - none in code that serves a request -/
